@@ -27,6 +27,7 @@ package scheduler
 
 //@ func (s *Scheduler) trimDuties
 //@ props C15
+//@ assigns s.duties, s.dutiesByEpoch
 //@ atomic
 //@ havoc s.trimEventTriggeredAttestations
 //@ ensures forallk(d, s.duties, has(old(s.duties), d) && s.duties[d] == old(s.duties)[d])
@@ -64,6 +65,7 @@ package scheduler
 
 //@ func (s *Scheduler) resolveAttDuties
 //@ props C15
+//@ assigns s.all
 //@ callreq s.setDutyDefinition: attDuty.Slot >= eth2p0.Slot(slot.Slot) && res(1, vals.PubKeyFromIndex(attDuty.ValidatorIndex)) && a3 == res(0, vals.PubKeyFromIndex(attDuty.ValidatorIndex))
 //@ callreq s.setDutyDefinition: core.PubKeyFrom48Bytes(attDuty.PubKey) == a3 && a2 == slot.Epoch() && a4 == core.NewAttesterDefinition(attDuty)
 //@ callreq s.setDutyDefinition: a1 == core.NewAttesterDuty(uint64(attDuty.Slot)) || a1 == core.NewAggregatorDuty(uint64(attDuty.Slot))
@@ -73,6 +75,7 @@ package scheduler
 
 //@ func (s *Scheduler) resolveProDuties
 //@ props C15
+//@ assigns s.all
 //@ callreq s.setDutyDefinition: proDuty.Slot >= eth2p0.Slot(slot.Slot) && res(1, vals.PubKeyFromIndex(proDuty.ValidatorIndex)) && a3 == res(0, vals.PubKeyFromIndex(proDuty.ValidatorIndex))
 //@ callreq s.setDutyDefinition: core.PubKeyFrom48Bytes(proDuty.PubKey) == a3 && a2 == slot.Epoch() && a4 == core.NewProposerDefinition(proDuty) && a1 == core.NewProposerDuty(uint64(proDuty.Slot))
 //@ loop 1 invariant true
@@ -80,6 +83,7 @@ package scheduler
 
 //@ func (s *Scheduler) scheduleSlot
 //@ props C15
+//@ assigns s.all
 //@ callreq go func: a1 == duty && duty.Slot == slot.Slot && a2 == defSet && ok
 //@ ensures ncalls("go func") <= len(core.AllDutyTypes())
 //@ loop 1 invariant ncalls("go func") <= $i
@@ -95,6 +99,7 @@ package scheduler
 // resolving slot to the end of ITS epoch, for the validator the beacon node named, with that validator's key.
 //@ func (s *Scheduler) resolveSyncCommDuties
 //@ props C15
+//@ assigns s.all
 //@ callreq s.setDutyDefinition: a1.Type == core.DutySyncContribution && a1.Slot >= slot.Slot && a1.Slot == sl.Slot && sl.SlotsPerEpoch == slot.SlotsPerEpoch && sl.Epoch() == slot.Epoch()
 //@ callreq s.setDutyDefinition: a2 == slot.Epoch() && res(1, vals.PubKeyFromIndex(syncCommDuty.ValidatorIndex)) && a3 == res(0, vals.PubKeyFromIndex(syncCommDuty.ValidatorIndex))
 //@ callreq s.setDutyDefinition: core.PubKeyFrom48Bytes(syncCommDuty.PubKey) == a3 && a4 == core.NewSyncCommitteeDefinition(syncCommDuty)
@@ -110,6 +115,7 @@ package scheduler
 // marked resolved only after all three succeeded (or there is nothing to resolve).
 //@ func (s *Scheduler) resolveDuties
 //@ props C15
+//@ assigns s.all
 //@ callreq resolveActiveValidators: a4 == slot.Epoch()
 //@ callreq s.resolveAttDuties: a2 == slot && a3 == vals
 //@ callreq s.resolveProDuties: a2 == slot && a3 == vals
